@@ -167,7 +167,8 @@ CHECKS = {
     },
     "C05": {
         "lean": ["DrummerVerif.Props.C05"],
-        "streams": [dbstream("c05", 250, 4000, ["res", "T", "img", "hosts", "info", "states"]), dbstream("general", 150, 2000, ["res", "T", "img", "hosts", "info", "states"])],
+        "streams": [dbstream("c05", 250, 4000, ["res", "T", "img", "hosts", "info", "states"]), dbstream("general", 150, 2000, ["res", "T", "img", "hosts", "info", "states"]),
+                    schedstream("repair", 250, 4000, ["maintain"]), schedstream("launch", 150, 2000, ["launch"])],
         "rule": RULE_DB % "c05 (silences of TTL-1 step, TTL, TTL+1 step between reports, reports at time 0, replicas that never report, hosts that stop and resume) and general; availability is read through the real SHARD_STATES query after every command",
         "assumptions": DB_ASSUME,
     },
